@@ -20,6 +20,7 @@ import (
 	"os"
 	"os/exec"
 	"path/filepath"
+	"sort"
 	"strings"
 	"syscall"
 	"time"
@@ -382,8 +383,13 @@ func determStream(r *Run) {
 		for j := 0; j < 10; j++ {
 			skvs = append(skvs, SKV(strings.Repeat("k", 1+j%3)+fmt.Sprint(j), VInt(0, int64(j))))
 		}
-		maps := []*V{big(4, 1<<60, 8), big(4, -(1 << 60), 8), big(0, 1<<53, 6), big(4, (1<<62)-4, 8), big(9, 1<<62, 8), big(3, 1<<30, 5), big(4, -3, 7), VStrMap(skvs...)}
-		tmpls := []string{"{% for kv in m %}{{ kv[1] }}{% endfor %}", "{{ m | join: '' }}", "{{ m | first }}{{ m | last }}", "{% tablerow kv in m cols:3 %}{{ kv[1] }}{% endtablerow %}",
+		var kfs []Field
+		for j := 0; j < 10; j++ {
+			kfs = append(kfs, Field{strings.Repeat("k", 1+j%3) + fmt.Sprint(j), VInt(0, int64(j))})
+		}
+		sort.Slice(kfs, func(a, b int) bool { return kfs[a].Name < kfs[b].Name }) // codec convention: fields of a keyed map sorted
+		maps := []*V{VKeyed(kfs...), big(4, 1<<60, 8), big(4, -(1 << 60), 8), big(0, 1<<53, 6), big(4, (1<<62)-4, 8), big(9, 1<<62, 8), big(3, 1<<30, 5), big(4, -3, 7), VStrMap(skvs...)}
+		tmpls := []string{"{% for kv in m %}{{ kv }};{% endfor %}", "{% for kv in m %}{{ kv[1] }}{% endfor %}", "{{ m | join: '' }}", "{{ m | first }}{{ m | last }}", "{% tablerow kv in m cols:3 %}{{ kv[1] }}{% endtablerow %}",
 			"{{ m | sort | join: ',' }}", "{{ m | reverse | join: ',' }}", "{% for kv in m reversed limit:3 offset:1 %}{{ kv[0] }};{% endfor %}", "{{ m | uniq | size }}{{ m | map: 'x' | size }}"}
 		for _, m := range maps {
 			for _, src := range tmpls {
